@@ -11,3 +11,5 @@
 (declare-fun pdOk (String) Bool)
 (declare-fun pdNum (String) Int)
 (declare-fun pdName (String) Int)
+; unicode.IsSpace (not interpreted; false at -1, the end-of-input marker, which is no rune)
+(declare-fun is_space (Int) Bool)
